@@ -305,20 +305,20 @@ pub fn mutate_doc(rng: &mut Rng, doc: &Value, other_names: &[String], cells: &mu
                     }
                     let name = if rng.chance(1, 3) { format!("{}_{}", k, ch) } else { format!("{}x", k) };
                     o.insert(name, body);
-                    cells.push("long_unknown");
+                    cells.push("wire_long_unknown");
                 }
             }
             14 => {
                 // names the generator reserves for itself must not be messages
                 v = rng.pick(&[json!({"__phantom": null}), json!({"_phantom": null}), json!({"__phantom": {}}), json!({"__phantom": []}), json!({"_Phantom": null})]).clone();
-                cells.push("phantom");
+                cells.push("wire_phantom");
             }
             0 => {
                 // unknown top-level name
                 if let Some(k) = key {
                     let body = o.remove(&k).unwrap();
                     o.insert(format!("{}{}", k, *rng.pick(&["x", "_", "2", "_v2"])), body);
-                    cells.push("rename_unknown");
+                    cells.push("wire_rename_unknown");
                 }
             }
             1 => {
@@ -326,18 +326,18 @@ pub fn mutate_doc(rng: &mut Rng, doc: &Value, other_names: &[String], cells: &mu
                 if let (Some(k), false) = (key, other_names.is_empty()) {
                     let body = o.remove(&k).unwrap();
                     o.insert(rng.pick(other_names).clone(), body);
-                    cells.push("rename_other");
+                    cells.push("wire_rename_other");
                 }
             }
             2 => {
                 o.clear();
-                cells.push("zero_keys");
+                cells.push("wire_zero_keys");
             }
             3 => {
                 // splice of two messages
                 if !other_names.is_empty() {
                     o.insert(rng.pick(other_names).clone(), json!({}));
-                    cells.push("two_keys");
+                    cells.push("wire_two_keys");
                 }
             }
             4 => {
@@ -352,7 +352,7 @@ pub fn mutate_doc(rng: &mut Rng, doc: &Value, other_names: &[String], cells: &mu
                     6 if !other_names.is_empty() => json!(rng.pick(other_names).clone()),
                     _ => json!(true),
                 };
-                cells.push("not_object");
+                cells.push("wire_not_object");
             }
             5 => {
                 // field removed
@@ -360,7 +360,7 @@ pub fn mutate_doc(rng: &mut Rng, doc: &Value, other_names: &[String], cells: &mu
                     if let Some(b) = o.get_mut(&k).and_then(|b| b.as_object_mut()) {
                         if let Some(f) = b.keys().next().cloned() {
                             b.remove(&f);
-                            cells.push("field_removed");
+                            cells.push("wire_field_removed");
                         }
                     }
                 }
@@ -369,7 +369,7 @@ pub fn mutate_doc(rng: &mut Rng, doc: &Value, other_names: &[String], cells: &mu
                 if let Some(k) = key {
                     if let Some(b) = o.get_mut(&k).and_then(|b| b.as_object_mut()) {
                         b.insert(format!("extra{}", rng.below(3)), json!(rng.below(9)));
-                        cells.push("field_added");
+                        cells.push("wire_field_added");
                     }
                 }
             }
@@ -382,10 +382,10 @@ pub fn mutate_doc(rng: &mut Rng, doc: &Value, other_names: &[String], cells: &mu
                             let f = rng.pick(&nums).clone();
                             let t = b[&f].to_string();
                             b.insert(f, json!(t));
-                            cells.push("number_as_string");
+                            cells.push("wire_number_as_string");
                         } else if let Some(f) = b.keys().next().cloned() {
                             b.insert(f, gen_wrong(rng, *rng.clone().pick(&["String", "u32", "bool", "Pt", "Vec<u32>"])));
-                            cells.push("field_retyped");
+                            cells.push("wire_field_retyped");
                         }
                     }
                 }
@@ -395,7 +395,7 @@ pub fn mutate_doc(rng: &mut Rng, doc: &Value, other_names: &[String], cells: &mu
                 if let Some(k) = key {
                     let body = serde_json::to_string(&o[&k]).unwrap();
                     text = Some(format!("{{\"{k}\":{body},\"{k}\":{body}}}").into_bytes());
-                    cells.push("dup_key");
+                    cells.push("wire_dup_key");
                 }
             }
             9 => {
@@ -403,7 +403,7 @@ pub fn mutate_doc(rng: &mut Rng, doc: &Value, other_names: &[String], cells: &mu
                 if b.len() > 1 {
                     b.truncate(rng.range(0, b.len() as u64 - 1) as usize);
                     text = Some(b);
-                    cells.push("truncated");
+                    cells.push("wire_truncated");
                 }
             }
             10 => {
@@ -412,7 +412,7 @@ pub fn mutate_doc(rng: &mut Rng, doc: &Value, other_names: &[String], cells: &mu
                     let i = rng.below(b.len() as u64) as usize;
                     b[i] ^= 1 << rng.below(8);
                     text = Some(b);
-                    cells.push("bit_flip");
+                    cells.push("wire_bit_flip");
                 }
             }
             11 => {
@@ -422,7 +422,7 @@ pub fn mutate_doc(rng: &mut Rng, doc: &Value, other_names: &[String], cells: &mu
                     // as the document tells)
                     let seq = o.get(&k).and_then(|b| b.as_object()).map(|b| Value::Array(b.values().cloned().collect())).unwrap_or(json!([]));
                     o.insert(k, rng.pick(&[json!(null), json!([]), json!("x"), json!(3), seq.clone(), seq]).clone());
-                    cells.push("body_not_object");
+                    cells.push("wire_body_not_object");
                 }
             }
             12 => {
@@ -433,7 +433,7 @@ pub fn mutate_doc(rng: &mut Rng, doc: &Value, other_names: &[String], cells: &mu
                             let mut parts: Vec<String> = b.iter().map(|(a, x)| format!("\"{}\":{}", a, x)).collect();
                             parts.push(format!("\"{}\":{}", f, fv));
                             text = Some(format!("{{\"{}\":{{{}}}}}", k, parts.join(",")).into_bytes());
-                            cells.push("dup_field");
+                            cells.push("wire_dup_field");
                         }
                     }
                 }
@@ -448,7 +448,7 @@ pub fn mutate_doc(rng: &mut Rng, doc: &Value, other_names: &[String], cells: &mu
                     t.splice(0..0, b" \n".iter().cloned());
                 }
                 text = Some(t);
-                cells.push("padding");
+                cells.push("wire_padding");
             }
         }
     }
@@ -529,7 +529,10 @@ impl Profile for WireFaults {
             let Some(op) = tg.op(rng) else { continue };
             // a handler with a forwarded serde alias may be addressed by that second name
             let op = match alias_form(&op, reg, &base.contracts) {
-                Some(aliased) if rng.chance(1, 2) => aliased,
+                Some(aliased) if rng.chance(1, 2) => {
+                    crate::driver::note_op_fault("wire_alias_name");
+                    aliased
+                }
                 _ => op,
             };
             if rng.chance(1, 3) {
@@ -559,6 +562,9 @@ impl Profile for WireFaults {
                 }
                 other => other,
             };
+            for t in tags {
+                crate::driver::note_op_fault(t);
+            }
             ops.push(op);
         }
         ops
@@ -698,6 +704,7 @@ impl Profile for Misdeliver {
             let k2 = *rng.pick(&Kind::ALL);
             let Some((doc, _)) = doc_of_kind(rng, &mut tg, &c, k1) else { continue };
             let msg = Doc::json(&doc);
+            crate::driver::note_op_fault(if k1 == k2 { "op_document_to_its_own_kind" } else { "op_misdelivered_document" });
             let op = match k2 {
                 // the document reaches a contract made by another contract from its creator
                 Kind::Exec if c.code == usize::MAX && parent.is_some() && rng.chance(2, 3) => {
